@@ -4,6 +4,7 @@
 //   <bin> --batch FILE --stats F --fail F --cur F            records: u32 length + bytes (for builds without rapidcheck use)
 //   <bin> --known KEY                                        exit 1 when the listed finding reproduces
 #include "verif_rt.h"
+#include <time.h>
 #include <rapidcheck.h>
 #include <signal.h>
 #include <unistd.h>
@@ -122,13 +123,21 @@ int main(int argc, char** argv) {
     }
     if (rc_mode) {
         std::vector<uint8_t> last_fail; bool failed = false; std::string sig, msg; uint64_t n = 0;
+        // shrinking is bounded by CPU time: on a tree where almost every case fails (a multi-threaded case costs 0.1 s) the
+        // greedy shrink of a few thousand bytes took longer than the whole search; once the budget is used up every further
+        // candidate is accepted unseen, which ends the shrink with the smallest failing input found so far
+        auto cpu_now = [] { struct timespec ts; clock_gettime(CLOCK_PROCESS_CPUTIME_ID, &ts); return (double)ts.tv_sec + (double)ts.tv_nsec * 1e-9; };
+        double fail_t0 = 0, shrink_budget = getenv("VERIF_SHRINK_BUDGET_S") ? atof(getenv("VERIF_SHRINK_BUDGET_S")) : 40.0;
         bool ok = rc::check(verif_property(), [&](const std::vector<uint8_t>& v) {
+            if (failed && cpu_now() - fail_t0 > shrink_budget) return;
             cur_write(v.data(), v.size());
             if ((n++ & 63) == 0) arm_watchdog();
             int r = verif_case(v.data(), v.size());
             if (r) {
+                if (!failed) fail_t0 = cpu_now();
                 failed = true; verif::g_counting = false;
                 last_fail = v; sig = verif::g_fail_sig; msg = verif::g_fail_msg;
+                write_file(failp, last_fail.data(), last_fail.size());   // kept current: a worker that is killed while shrinking still leaves a replay file
             }
             RC_ASSERT(r == 0);
         });
